@@ -192,6 +192,12 @@ def r17_3(ctx, rep):
         for s in walk_local(cp):
             if isinstance(s, ast.Assign) and norm(s.targets[0]).endswith("." + attr) and "deepcopy(self.%s)" % attr in norm(s.value):
                 ok = True
+            # the same as a comprehension: <copy>.<attr> = {k: v.copy() for k, v in self.<attr>.items()}
+            if isinstance(s, ast.Assign) and norm(s.targets[0]).endswith("." + attr) and isinstance(s.value, ast.DictComp) and len(s.value.generators) == 1 \
+                    and not s.value.generators[0].ifs and norm(s.value.generators[0].iter) == "self.%s.items()" % attr and isinstance(s.value.generators[0].target, ast.Tuple):
+                k, v = [norm(e) for e in s.value.generators[0].target.elts]
+                if norm(s.value.key) == k and norm(s.value.value) in ("%s.copy()" % v, "set(%s)" % v, "frozenset(%s)" % v, "copy.copy(%s)" % v, "copy.deepcopy(%s)" % v):
+                    ok = True
         rep.ob(R, AR + ":%s.copy" % CLS, "element-wise copy of " + attr, ok,
                "values of %s are mutated in place (%s); a shallow dict copy shares them, so add() on the copy changes the source" % (attr, mutated[attr][:2]))
     # other mutations of sets obtained from the accessor must be on copies
